@@ -6,3 +6,4 @@ open Fzf.Props.C19
 #print axioms C19_listed_under
 #print axioms C19_skip_rules
 #print axioms C19_no_dot_slash
+#print axioms C19_root_printed_without_dot_slash
